@@ -62,3 +62,15 @@ Proof.
   destruct (contents_are_last c h b Hc HI) as [E _]. rewrite <- E. exact Hfirst.
 Qed.
 End Full.
+
+(* multi-agent deque(maxlen=c): never longer than c, exact length, and it only ever holds experiences that were appended *)
+Lemma dq_extend_bounded {T} c (xs l h : list T) : l = lastn c h ->
+  length (dq_extend c l xs) = Nat.min c (length h + length xs) /\
+  length (dq_extend c l xs) <= c /\
+  (forall x, In x (dq_extend c l xs) -> In x (h ++ xs)).
+Proof.
+  intros E. rewrite (dq_extend_spec c xs l h E). rewrite lastn_length, app_length.
+  repeat split; [lia|].
+  intros x Hx. unfold lastn in Hx.
+  rewrite <- (firstn_skipn (length (h ++ xs) - c) (h ++ xs)). apply in_or_app. right. exact Hx.
+Qed.
